@@ -56,8 +56,15 @@ O_RUN = "Mpsa.discretize: terminates without exception on an admissible input"
 
 
 def build_grid(pp, spec):
-    ctor = {"cart": pp.CartGrid, "tri": pp.StructuredTriangleGrid, "tet": pp.StructuredTetrahedralGrid}[spec["kind"]]
-    g = ctor(np.array(spec["n"]), np.array(spec["phys"], dtype=float))
+    if spec["kind"] == "prism":
+        # extruded triangle grid: triangular faces (3 nodes) and quadrilateral faces (4 nodes) in one grid
+        n, phys = spec["n"], spec["phys"]
+        g2 = pp.StructuredTriangleGrid(np.array(n[:2]), np.array(phys[:2], dtype=float))
+        g2.compute_geometry()
+        g, _, _ = pp.grid_extrusion.extrude_grid(g2, np.linspace(0.0, float(phys[2]), n[2] + 1))
+    else:
+        ctor = {"cart": pp.CartGrid, "tri": pp.StructuredTriangleGrid, "tet": pp.StructuredTetrahedralGrid}[spec["kind"]]
+        g = ctor(np.array(spec["n"]), np.array(spec["phys"], dtype=float))
     if spec.get("nodes") is not None:
         g.nodes = np.array(spec["nodes"], dtype=float)
     with warnings.catch_warnings():
@@ -94,7 +101,8 @@ def sheared(pp, spec, A):
 
 def grid_specs(pp, rng, quick):
     base = [("cart", [2, 2], [2.0, 2.0]), ("cart", [3, 2], [1.5, 1.0]), ("tri", [2, 2], [1.0, 1.0]), ("tri", [3, 2], [3.0, 1.0]),
-            ("cart", [2, 2, 2], [1.0, 2.0, 1.5]), ("tet", [1, 1, 1], [1.0, 1.0, 1.0]), ("tet", [2, 1, 1], [2.0, 1.0, 1.5])]
+            ("cart", [2, 2, 2], [1.0, 2.0, 1.5]), ("tet", [1, 1, 1], [1.0, 1.0, 1.0]), ("tet", [2, 1, 1], [2.0, 1.0, 1.5]),
+            ("prism", [2, 2, 2], [1.0, 1.0, 1.5])]
     if not quick:
         base += [("cart", [3, 3], [3.0, 1.5]), ("cart", [1, 1], [1.0, 1.0]), ("tri", [1, 1], [1.0, 1.0]), ("tri", [3, 3], [1.0, 2.0]),
                  ("cart", [3, 2, 2], [1.0, 1.0, 1.0]), ("cart", [1, 1, 1], [1.0, 1.0, 1.0]), ("tet", [2, 2, 1], [1.0, 1.0, 1.0])]
@@ -144,6 +152,10 @@ def bc_layouts(g, rng, n_random):
     out = [("all-dir", "d" * nb)]
     k = rng.randrange(nb)
     out.append(("one-neu", "d" * k + "n" + "d" * (nb - k - 1)))
+    if np.unique(np.asarray(g.face_nodes.sum(axis=0)).ravel()).size > 1:
+        # faces with different numbers of nodes (prisms): more single-Neumann-face layouts, on faces of both kinds
+        for k in rng.sample(range(nb), min(nb, 8)):
+            out.append(("one-neu", "d" * k + "n" + "d" * (nb - k - 1)))
     for _ in range(n_random):
         if g.dim == 2:
             s = "".join(rng.choice("dn") for _ in range(nb))
